@@ -54,7 +54,24 @@ def _inl(e, p, ctx):
             if ctx["is_rec"](n):
                 return ast.Name(id="CHILDFLAT", ctx=ast.Load())
             return n
+
+        def visit_Name(self, n):
+            # a module-level bytes constant (a named quote character) reads as its value
+            fold = ctx.get("fold")
+            if fold is not None and isinstance(n.ctx, ast.Load) and n.id not in ctx["rename"].values() and n.id != "CHILDFLAT":
+                v = fold(n)
+                if isinstance(v, bytes):
+                    return ast.Constant(value=v)
+            return n
     return Tr().visit(e2)
+
+
+def _cases(e, az):
+    """[(condition, expression)] of a conditional expression (nested ones too)"""
+    if isinstance(e, ast.IfExp):
+        c = az.formula(e.test)
+        return [(G.f_and(c, c2), x) for c2, x in _cases(e.body, az)] + [(G.f_and(G.f_not(c), c2), x) for c2, x in _cases(e.orelse, az)]
+    return [(G.T, e)]
 
 
 def _step(st, p, ctx):
@@ -71,13 +88,31 @@ def _step(st, p, ctx):
         p.exit = "break"
         return [p]
     if isinstance(st, ast.Assign) and len(st.targets) == 1 and isinstance(st.targets[0], ast.Name):
-        p.env[st.targets[0].id] = _inl(st.value, p, ctx)
+        inl = _inl(st.value, p, ctx)
+        if isinstance(inl, ast.IfExp):
+            az = G.Atomizer(is_int=ctx["is_int"])
+            res = []
+            for c, x in _cases(inl, az):
+                env = dict(p.env)
+                env[st.targets[0].id] = x
+                res.append(Path(env, list(p.out), G.f_and(p.pc, c)))
+            return res
+        p.env[st.targets[0].id] = inl
         return [p]
     if isinstance(st, ast.Expr) and isinstance(st.value, ast.Call) and isinstance(st.value.func, ast.Attribute) and \
             st.value.func.attr in ("append", "extend") and norm_src(st.value.func.value) == ctx["OUT"]:
         arg = st.value.args[0]
         if st.value.func.attr == "append":
-            p.out.append(norm_src(_inl(arg, p, ctx)))
+            inl = _inl(arg, p, ctx)
+            if isinstance(inl, ast.IfExp):
+                # out.append(a if c else b): one path per arm
+                az = G.Atomizer(is_int=ctx["is_int"])
+                res = []
+                for c, x in _cases(inl, az):
+                    q = Path(dict(p.env), list(p.out) + [norm_src(x)], G.f_and(p.pc, c))
+                    res.append(q)
+                return res
+            p.out.append(norm_src(inl))
         elif isinstance(arg, (ast.List, ast.Tuple)):
             for x in arg.elts:
                 p.out.append(norm_src(_inl(x, p, ctx)))
@@ -145,7 +180,7 @@ def analyse(run, fi, kind):
     def is_int(e):
         s = norm_src(e)
         return "OFFSET" in s or ".start" in s or ".end" in s
-    ctx = dict(rename=rename, OUT=OUT, is_rec=is_rec, is_int=is_int)
+    ctx = dict(rename=rename, OUT=OUT, is_rec=is_rec, is_int=is_int, fold=lambda n: prog.try_fold(mod, n))
     paths = _interp(lp.body, [Path({}, [], G.T)], ctx)
 
     def canon(s):
